@@ -809,7 +809,11 @@ class err_st(err_node):
         seg_err_ct = 0
         if self.child_err_count() > 0:
             seg_err_ct = 1
-        return len(self.errors) + seg_err_ct
+        # errors in the elements of ST and SE themselves
+        ele_err_ct = 0
+        for ele in self.elements:
+            ele_err_ct += ele.get_error_count()
+        return len(self.errors) + seg_err_ct + ele_err_ct
 
     def get_error_count(self):
         return self.err_count()
